@@ -40,7 +40,8 @@ ASSUMPTIONS = [
 MINIMUMS = {
     'quick': {'evaluations': 1500, 'nodes_multi_path>=3': 100, 'tempbox_cases': 150,
               'control_id_reuse': 1, 'deep_chain_ok': 5, 'clone_cases': 100, 'edges_checked': 5000,
-              'dags_with_partial_nodes': 150},
+              'dags_with_partial_nodes': 150,
+              'builds_after_update_callable_to_positional_only': 15},
     'thorough': {'evaluations': 1000},
 }
 
@@ -201,8 +202,51 @@ def judge_dag(root, acc, tag='dag'):
   return built
 
 
+def probe_after_update_callable(rng, acc):
+  """Sub-configurations referenced through arguments that update_callable carried over to a
+  callable in which those parameters are positional-only (they stay stored under their names):
+  each is still invoked exactly once and reaches the callable."""
+  from vt import sigs
+  shared = fdl.Config(kinds.two, x=rng.randint(0, 9))
+  only_here = fdl.Config(kinds.two, x='only')
+  cfg = fdl.Config(sigs.g_abc, a=only_here, b=[shared, 1], c=shared)
+  which = rng.choice(['g_ab_c_va', 'g_posonly_mixed'])
+  try:
+    if which == 'g_ab_c_va':
+      fdl.update_callable(cfg, sigs.g_ab_c_va)                  # (a, b, /, c, *va)
+    else:
+      del cfg.c
+      cfg.b = shared
+      fdl.update_callable(cfg, sigs.g_posonly_mixed)            # (a, b=2, /)
+  except Exception as e:  # pylint: disable=broad-except
+    acc.obs('update_callable_probe_setup_failed:' + type(e).__name__)
+    return
+  acc.obs('builds_after_update_callable_to_positional_only')
+  w = {'case': which, 'arguments': safe_repr(dict(cfg.__arguments__), 200)}
+  with rec.Trace() as tr:
+    try:
+      out = fdl.build(cfg)
+    except Exception as e:  # pylint: disable=broad-except
+      acc.violation('after-update_callable:build-raises:' + type(e).__name__, repr(e)[:200], w)
+      return
+  calls = [e for e in tr.calls() if e[2] == 'two']
+  want = 2
+  if len(calls) != want:
+    acc.violation('after-update_callable:invocation-count',
+                  f'{len(calls)} invocation(s) of the sub-configurations, expected {want} '
+                  f'(one per Buildable); built {safe_repr(out, 200)}', w)
+    return
+  a_seen = out.bound.get('a')
+  if not isinstance(a_seen, rec.Rec) or a_seen.bound.get('x') != 'only':
+    acc.violation('after-update_callable:built-object-not-delivered',
+                  f'parameter a received {safe_repr(a_seen, 80)}', w)
+  acc.case(('after-update_callable', which), True)
+
+
 def run_dag(spec, acc):
-  for _, rng in acc.cases(spec):
+  for i_, rng in acc.cases(spec):
+    if i_ % 40 == 7:
+      probe_after_update_callable(rng, acc)
     opts = gen.Opts(max_nodes=rng.choice([6, 12, 25, 40]), max_depth=rng.choice([3, 5, 7]),
                     p_share=rng.choice([0.2, 0.4, 0.6]), p_clone=0.15, fns=UID_FNS, lattice=0.0,
                     containers=['list', 'tuple', 'dict', 'point', 'pair', 'defaultdict', 'tempbox'],
